@@ -60,7 +60,12 @@ T_ReplyEnd ==
     /\ IsEvent("ReplyEnd")
     /\ J09 => (flow = "enc" /\ ciphers = ExpectedCiphers)
     /\ UNCHANGED <<flow, script, nrem, outcome, ciphers>>
-Next == T_Reset \/ T_Login \/ T_Result \/ T_LoginRec \/ T_Scan \/ T_Cipher \/ T_ReplyEnd
+\* two logins on one connection (the first refused after the credentials were sent): both session keys reach
+\* the server, and the second one is fresh
+T_TwoLogins == /\ IsEvent("TwoLogins")
+               /\ J09 => /\ E.outcomes = <<"error", "success">> /\ E.keys = 2 /\ ~E.samekey
+               /\ UNCHANGED <<flow, script, nrem, outcome, ciphers>>
+Next == T_TwoLogins \/ T_Reset \/ T_Login \/ T_Result \/ T_LoginRec \/ T_Scan \/ T_Cipher \/ T_ReplyEnd
 Spec == Init /\ [][Next]_vars
 HW == HWOf(l)
 =============================================================================
